@@ -198,6 +198,19 @@ def saw_case(name, seed, ns, na, bs, pref, variant):
     spy = Spy(inner)
     wr = SingleAnnotatorWrapper(inner, random_state=seed)
     kw = zoo.model_kwargs(entry, np.nan, (0, 1), seed=seed, variant=variant)
+    # how candidates x annotators are addressed: both None / index candidates with a Boolean availability
+    # matrix in which some candidate has no annotator at all (such rows are not ranked; the rows behind them
+    # must still be the ones the wrapped strategy chose)
+    amode = "none"
+    if len(cands) >= 2 and rng.rand() < 0.5:
+        amode = "idx-mask"
+        A = rng.rand(len(cands), na) < 0.6
+        A[rng.randint(len(cands))] = False
+        if not A.any():
+            A[-1, 0] = True
+        kw["candidates"] = np.array(cands)
+        kw["annotators"] = A
+        bs = max(1, min(bs, int(A.sum())))
     try:
         with warnings.catch_warnings():
             warnings.simplefilter("ignore")
@@ -209,11 +222,14 @@ def saw_case(name, seed, ns, na, bs, pref, variant):
                   {"ev": "OuterSaw", "samples": [int(i) + 1 for i in np.asarray(q)[:, 0]]}]
     except Exception as ex:
         events = [{"ev": "Raised", "exc": "%s: %s" % (type(ex).__name__, str(ex)[:160])}]
-    return {"id": "SingleAnnotatorWrapper(%s)/ns%d-na%d-bs%d-pref%d/seed%d/v%d" % (name, ns, na, bs, pref, seed, variant),
+    return {"id": "SingleAnnotatorWrapper(%s)/ns%d-na%d-bs%d-pref%d-%s/seed%d/v%d" % (name, ns, na, bs, pref, amode, seed,
+                                                                                 variant),
             "n": ns, "cands": [c + 1 for c in cands], "frac": False, "maxc": [1, 1], "events": events,
             "concrete": {"wrapper": "SingleAnnotatorWrapper", "inner": name, "seed": seed, "X": X.tolist(),
                          "y": [["nan" if v != v else v for v in r] for r in y.tolist()], "batch_size": bs,
-                         "n_annotators_per_sample": pref, "variant": variant}}
+                         "n_annotators_per_sample": pref, "variant": variant,
+                         "candidates": None if amode == "none" else cands,
+                         "annotators": None if amode == "none" else kw["annotators"].tolist()}}
 
 
 def _job(arg):
